@@ -174,13 +174,18 @@ func findFunctionCallViolation(
 	case *ast.Ident:
 		// Direct function call: CreateMockData()
 		funcName := fun.Name
+		pkgPath := *ctx.currentPkgPath
 		// A local variable, parameter or closure may merely share the name of a @testonly function
 		if obj := ctx.pass.TypesInfo.Uses[fun]; obj != nil {
 			if _, isFunc := obj.(*types.Func); !isFunc {
 				return nil
 			}
+			// A function of a dot-imported package is called by its bare name
+			if obj.Pkg() != nil {
+				pkgPath = obj.Pkg().Path()
+			}
 		}
-		if ctx.testOnlyFuncs.Match(*ctx.currentPkgPath, funcName, funcName) {
+		if ctx.testOnlyFuncs.Match(pkgPath, funcName, funcName) {
 			return &TestOnlyViolation{
 				Pos:         call.Pos(),
 				TestOnlyObj: funcName,
